@@ -94,6 +94,10 @@ def regression():
                    Variant("C", "unit", [], [ser("gb"), tos("GB"), aci(True, explicit=True)]), Variant("D", "unit", [], [tos("Tb"), ser("tB")])]),
         Item("E", [Variant("A", "unit", [], [ser("mb"), tos("MB"), aci(False)]), Variant("B", "unit", [], [ser("kb"), ser("KB")])], metas=[EM("aci")]),
         Item("E", [Variant("Off", "tuple", [Field("String")], [DEFAULT, DISABLED]), Variant("Real", "tuple", [Field("String")], [DEFAULT]), Variant("Red", "unit")]),
+        # punctuation that differs from another variant's in bit 5 only (| and \, ~ and ^, ` and @, - and CR): case folding touches letters only
+        Item("E", [Variant("Pipe", "unit", [], [ser("|"), aci(True, explicit=False)]), Variant("Backslash", "unit", [], [ser("\\")]), Variant("Tilde", "unit", [], [ser("~t")]),
+                   Variant("Caret", "unit", [], [ser("^t")]), Variant("Tick", "tuple", [Field("u8")], [ser("`x")]), Variant("At", "unit", [], [ser("@x")]),
+                   Variant("Dash", "unit", [], [ser("user-name")]), Variant("Cr", "unit", [], [ser("user\rname")])], metas=[EM("aci")]),
         # a DISABLED (or default) variant owns no spelling: a later enabled variant may use its name
         Item("E", [Variant("Warn", "unit", [], [DISABLED]), Variant("Warning", "unit", [], [ser("Warn")]), Variant("Error", "unit")]),
         Item("E", [Variant("Other", "tuple", [Field("String")], [DEFAULT]), Variant("Misc", "unit", [], [ser("Other"), ser("other")]), Variant("Off", "unit", [], [DISABLED, ser("x")]),
